@@ -151,6 +151,8 @@ class G:
             c = self.col(computed=True)
             if c["name"] not in seen:
                 seen.add(c["name"])
+                if c.get("key") and any(c["key"] == o.get("key") for o in out):     # keys are unique within a table
+                    c["key"] = "%s_%d" % (c["key"], len(out))
                 out.append(c)
         return out
 
